@@ -187,29 +187,47 @@ class World:
     def op_advance(self, op):
         self.clock.advance(op['dt'])
 
+    def _populate(self, what, fn):
+        """A call into repo code that builds the population (publish,
+        zkutils).  It is not the archiver: a failure here is not what C18
+        forbids - the node is simply not there - but it is recorded (log,
+        probe `populate_raised:<what>`), never swallowed silently and never
+        a harness error."""
+        try:
+            fn()
+        except SimCrash:
+            raise
+        except Exception as err:  # pylint: disable=broad-except
+            key = 'populate_raised:' + what
+            self.probes[key] = self.probes.get(key, 0) + 1
+            self.log.ev('populate-raised', what, repr(err))
+
     def op_schedule(self, op):
         """What the master does: /scheduled/<inst> and a placement."""
-        zkutils.put(self.admin, z.path.scheduled(op['inst']),
-                    {'memory': '100M', 'cpu': '10%', 'disk': '100M'})
-        zkutils.put(self.admin, z.path.placement(op['host'], op['inst']),
-                    {'expires': 0, 'identity': None})
+        self._populate('schedule', lambda: (
+            zkutils.put(self.admin, z.path.scheduled(op['inst']),
+                        {'memory': '100M', 'cpu': '10%', 'disk': '100M'}),
+            zkutils.put(self.admin, z.path.placement(op['host'], op['inst']),
+                        {'expires': 0, 'identity': None})))
 
     def op_unplace(self, op):
         """The instance was moved away from `host` (its later terminal event
         from that host is stale: real publish leaves /scheduled alone)."""
-        zkutils.ensure_deleted(self.admin,
-                               z.path.placement(op['host'], op['inst']))
+        self._populate('unplace', lambda: zkutils.ensure_deleted(
+            self.admin, z.path.placement(op['host'], op['inst'])))
 
     def op_unschedule(self, op):
         """The instance was deleted by its owner (masterapi.delete_apps)."""
-        zkutils.ensure_deleted(self.admin, z.path.scheduled(op['inst']))
+        self._populate('unschedule', lambda: zkutils.ensure_deleted(
+            self.admin, z.path.scheduled(op['inst'])))
 
     def op_event(self, op):
         saved = app_zk._HOSTNAME
         app_zk._HOSTNAME = op['host']
         try:
-            app_zk.publish(self.node, op['when'], op['inst'], op['type'],
-                           op['data'], op.get('payload'))
+            self._populate('publish', lambda: app_zk.publish(
+                self.node, op['when'], op['inst'], op['type'], op['data'],
+                op.get('payload')))
         finally:
             app_zk._HOSTNAME = saved
 
@@ -217,8 +235,9 @@ class World:
         saved = server_zk._HOSTNAME
         server_zk._HOSTNAME = op['host']
         try:
-            server_zk.publish(self.node, op['when'], op['server'],
-                              op['type'], op['data'], None)
+            self._populate('server-publish', lambda: server_zk.publish(
+                self.node, op['when'], op['server'], op['type'], op['data'],
+                None))
         finally:
             server_zk._HOSTNAME = saved
 
